@@ -1,9 +1,10 @@
-import HioModel.Tcp.Model
+import HioModel.Tcp.Safe
 /-! helper lemmas for C09: the stream invariant is preserved by every public call -/
 namespace Hio.Tcp
 
 /-- everything C09 claims about one connection, relative to the concatenated payloads `p` handed to `tx` so far -/
 structure Inv (c : Conn) (p : Bytes) : Prop where
+  safe : Safe c
   tx : c.kacc ++ c.txbs = p
   rx : c.rxbs = c.kdel
   wtx : c.wireTx = if c.wl then c.kacc else []
@@ -12,16 +13,17 @@ structure Inv (c : Conn) (p : Bytes) : Prop where
 theorem sendFault_inv {c : Conn} {p : Bytes} (code : Nat) (h : Inv c p) :
     Inv (finishSend (sendFault c code)).1 p := by
   unfold sendFault
-  split <;> simp [finishSend] <;> exact ⟨h.tx, h.rx, h.wtx, h.wrx⟩
+  split <;> simp [finishSend] <;> exact ⟨h.safe, h.tx, h.rx, h.wtx, h.wrx⟩
 
 theorem send_inv {c : Conn} {p : Bytes} (h : Inv c p) : Inv (finishSend (send c)).1 p := by
   unfold send
   split
   · exact sendFault_inv _ h
   · rename_i code rest hs
-    exact sendFault_inv code (c := { c with sends := rest }) ⟨h.tx, h.rx, h.wtx, h.wrx⟩
+    exact sendFault_inv code (c := { c with sends := rest }) ⟨h.safe, h.tx, h.rx, h.wtx, h.wrx⟩
   · rename_i n rest hs
-    refine ⟨?_, h.rx, ?_, h.wrx⟩
+    simp only [h.safe.tx, Bool.false_eq_true, and_false, ↓reduceIte]
+    refine ⟨h.safe, ?_, h.rx, ?_, h.wrx⟩
     · simp only [finishSend, List.append_assoc, List.take_append_drop]
       exact h.tx
     · simp only [finishSend]
@@ -35,7 +37,7 @@ theorem serviceSends_inv {c : Conn} {p : Bytes} (h : Inv c p) : Inv (serviceSend
 
 theorem recvFault_inv {c : Conn} {p : Bytes} (code : Nat) (h : Inv c p) : Inv (recvFault c code).1 p := by
   unfold recvFault
-  split <;> exact ⟨h.tx, h.rx, h.wtx, h.wrx⟩
+  split <;> exact ⟨h.safe, h.tx, h.rx, h.wtx, h.wrx⟩
 
 theorem recvLoop_inv (script : List RResp) : ∀ {c : Conn} {p : Bytes}, Inv c p → Inv (recvLoop c script).1 p := by
   induction script with
@@ -43,20 +45,21 @@ theorem recvLoop_inv (script : List RResp) : ∀ {c : Conn} {p : Bytes}, Inv c p
     intro c p h
     unfold recvLoop
     split
-    · exact ⟨h.tx, h.rx, h.wtx, h.wrx⟩
-    · exact recvFault_inv _ ⟨h.tx, h.rx, h.wtx, h.wrx⟩
+    · exact ⟨h.safe, h.tx, h.rx, h.wtx, h.wrx⟩
+    · exact recvFault_inv _ ⟨h.safe, h.tx, h.rx, h.wtx, h.wrx⟩
   | cons r rest ih =>
     intro c p h
     unfold recvLoop
     split
-    · exact ⟨h.tx, h.rx, h.wtx, h.wrx⟩
+    · exact ⟨h.safe, h.tx, h.rx, h.wtx, h.wrx⟩
     · split
-      · exact recvFault_inv _ ⟨h.tx, h.rx, h.wtx, h.wrx⟩
+      · exact recvFault_inv _ ⟨h.safe, h.tx, h.rx, h.wtx, h.wrx⟩
       · rename_i d
         split
-        · exact ⟨h.tx, h.rx, h.wtx, h.wrx⟩
-        · apply ih
-          refine ⟨h.tx, ?_, h.wtx, ?_⟩
+        · exact ⟨h.safe, h.tx, h.rx, h.wtx, h.wrx⟩
+        · simp only [h.safe.rx, Bool.false_eq_true, ↓reduceIte]
+          apply ih
+          refine ⟨h.safe, h.tx, ?_, h.wtx, ?_⟩
           · simp [h.rx]
           · simp only
             cases hw : c.wl <;> simp [h.wrx, hw]
@@ -77,10 +80,11 @@ theorem andThen_inv {r : Conn × Option Exn} {f : Conn → Conn × Option Exn} {
 theorem step_inv {c : Conn} {p : Bytes} (op : Op) (h : Inv c p) : Inv (step c op).1 (p ++ payload [op]) := by
   cases op with
   | tx d =>
-    refine ⟨?_, h.rx, h.wtx, h.wrx⟩
+    refine ⟨h.safe, ?_, h.rx, h.wtx, h.wrx⟩
     simp [step, payload, ← h.tx]
   | ss => simpa [step, payload] using serviceSends_inv h
   | sr => simpa [step, payload] using serviceReceives_inv h
+  | rst => simpa [step, payload] using (⟨h.safe, h.tx, h.rx, h.wtx, h.wrx⟩ : Inv { c with peerGone := true } p)
   | svc =>
     have e : p ++ payload [Op.svc] = p := by simp [payload]
     rw [e]
@@ -101,8 +105,9 @@ theorem run_inv (ops : List Op) : ∀ {c : Conn} {p : Bytes}, Inv c p → Inv (r
     rw [run, payload_cons, ← List.append_assoc]
     exact ih (step_inv op h)
 
-theorem init_inv (kind : Kind) (wl : Bool) (s : List SResp) (r : List RResp) : Inv (init kind wl s r) [] := by
-  refine ⟨rfl, rfl, ?_, ?_⟩ <;> cases wl <;> rfl
+theorem init_inv (kind : Kind) (wl : Bool) (s : List SResp) (r : List RResp) (hs : wl = false ∨ PeerSafe kind) :
+    Inv (init kind wl s r) [] := by
+  refine ⟨hs, rfl, rfl, ?_, ?_⟩ <;> cases wl <;> rfl
 
 /-! ### kind and wire-log flag never change -/
 
@@ -117,7 +122,8 @@ theorem serviceSends_wl (c : Conn) : (serviceSends c).1.wl = c.wl := by
     split
     · exact sendFault_wl _ _
     · exact sendFault_wl _ _
-    · rfl
+    · rename_i n rest _
+      by_cases hcnd : 0 < min n c.txbs.length ∧ c.wlFailsTx = true <;> simp [hcnd, finishSend]
   · rfl
 
 theorem recvFault_wl (c : Conn) (code : Nat) : (recvFault c code).1.wl = c.wl := by
@@ -136,7 +142,9 @@ theorem recvLoop_wl (script : List RResp) : ∀ c : Conn, (recvLoop c script).1.
       · exact recvFault_wl _ _
       · split
         · rfl
-        · rw [ih]
+        · split
+          · rfl
+          · rw [ih]
 
 theorem serviceReceives_wl (c : Conn) : (serviceReceives c).1.wl = c.wl := by
   unfold serviceReceives
@@ -156,6 +164,7 @@ theorem step_wl (c : Conn) (op : Op) : (step c op).1.wl = c.wl := by
   | tx d => rfl
   | ss => exact serviceSends_wl c
   | sr => exact serviceReceives_wl c
+  | rst => rfl
   | svc =>
     cases hk : c.kind <;> simp only [step, hk]
     · rw [andThen_wl serviceReceives_wl, serviceSends_wl]
@@ -190,50 +199,51 @@ def afterAcc (c : Conn) (m : Nat) (rest : List SResp) : Conn :=
            wireTx := if c.wl then c.wireTx ++ c.txbs.take (min m c.txbs.length) else c.wireTx,
            txbs := c.txbs.drop (min m c.txbs.length) }
 
-theorem drains_aux : ∀ (n : Nat) (c : Conn), c.txbs.length ≤ n → c.cutoff = false → c.guard = true →
+theorem drains_aux : ∀ (n : Nat) (c : Conn), Safe c → c.txbs.length ≤ n → c.cutoff = false → c.guard = true →
     AllAccept c.sends → n ≤ c.sends.length →
     (sendN n c).txbs = [] ∧ (sendN n c).kacc = c.kacc ++ c.txbs ∧ (sendN n c).cutoff = false := by
   intro n
   induction n with
   | zero =>
-    intro c hn hc _ _ _
+    intro c _ hn hc _ _ _
     have : c.txbs = [] := List.length_eq_zero_iff.mp (Nat.le_zero.mp hn)
     simp [sendN, this, hc]
   | succ n ih =>
-    intro c hn hc hg hs hl
+    intro c hsafe hn hc hg hs hl
     by_cases ht : c.txbs = []
     · rw [sendN, serviceSends_empty c ht]
-      exact ih c (by simp [ht]) hc hg hs (by omega)
+      exact ih c hsafe (by simp [ht]) hc hg hs (by omega)
     · match hsd : c.sends, hl, hs with
       | [], hl, _ => simp at hl
       | r :: rest, hl, hs =>
         obtain ⟨m, hm, rfl⟩ := hs r (by simp)
         have hsv : serviceSends c = (afterAcc c m rest, none) := by
           unfold serviceSends
-          simp only [ne_eq, ht, not_false_eq_true, hg, hc, and_self, ↓reduceIte, send, hsd, finishSend, afterAcc]
+          simp only [ne_eq, ht, not_false_eq_true, hg, hc, and_self, ↓reduceIte, send, hsd, finishSend, afterAcc,
+            hsafe.tx, Bool.false_eq_true, and_false]
         rw [sendN, hsv]
         have hpos : 0 < c.txbs.length := List.length_pos_iff.mpr ht
         have hk : 1 ≤ min m c.txbs.length := by omega
-        have h := ih (afterAcc c m rest)
+        have h := ih (afterAcc c m rest) hsafe
           (by simp only [afterAcc, List.length_drop]; omega) hc (by simpa [Conn.guard, afterAcc] using hg)
           (fun r hr => hs r (by simp [afterAcc] at hr; simp [hr])) (by simp [afterAcc] at hl ⊢; omega)
         simpa [afterAcc, List.append_assoc, List.take_append_drop] using h
 
 /-- every chunk the kernel will deliver is non-empty data (no EOF, no fault) -/
-theorem recvLoop_all (ds : List Bytes) : ∀ (c : Conn), c.cutoff = false → (∀ d ∈ ds, d ≠ []) →
+theorem recvLoop_all (ds : List Bytes) : ∀ (c : Conn), Safe c → c.cutoff = false → (∀ d ∈ ds, d ≠ []) →
     lookup (recvTable c.kind) (wbCode c.kind) = .wouldblock →
     (recvLoop c (ds.map RResp.data)).1.rxbs = c.rxbs ++ ds.flatten ∧
     (recvLoop c (ds.map RResp.data)).2 = none ∧ (recvLoop c (ds.map RResp.data)).1.cutoff = false := by
   induction ds with
   | nil =>
-    intro c hc _ hw
+    intro c _ hc _ hw
     simp [recvLoop, hc, recvFault, hw]
   | cons d ds ih =>
-    intro c hc hd hw
+    intro c hsafe hc hd hw
     have hne : d ≠ [] := hd d (by simp)
-    simp only [List.map_cons, recvLoop, hc, Bool.false_eq_true, ↓reduceIte, hne, List.flatten_cons]
+    simp only [List.map_cons, recvLoop, hc, Bool.false_eq_true, ↓reduceIte, hne, List.flatten_cons, hsafe.rx]
     have := ih { c with rxbs := c.rxbs ++ d, kdel := c.kdel ++ d,
-                        wireRx := if c.wl then c.wireRx ++ d else c.wireRx } hc
+                        wireRx := if c.wl then c.wireRx ++ d else c.wireRx } hsafe hc
       (fun x hx => hd x (by simp [hx])) hw
     simpa [List.append_assoc, hc] using this
 
